@@ -55,3 +55,81 @@ Proof.
   exists [99], [([122], [49]); ([97;98], [50])], [([122], [49;97]); ([98], [50])].
   split; [discriminate|]. repeat split; vm_compute; reflexivity.
 Qed.
+
+(* ---- any number of tags: series that carry the SAME tag keys (the usual case: one metric, one label
+   schema, different label values) are never merged, provided names, keys and values contain no
+   underscore.  The conclusion is about the canonical (sorted) tag lists, i.e. the tag SETS. ---- *)
+Fixpoint insert_key (k : bytes) (l : list bytes) : list bytes :=
+  match l with
+  | [] => [k]
+  | u :: r => if bytes_gtb u k then u :: insert_key k r else k :: l
+  end.
+Definition sort_keys (l : list bytes) : list bytes := fold_right insert_key [] l.
+
+Lemma insert_desc_keys t l : map fst (insert_desc t l) = insert_key (fst t) (map fst l).
+Proof.
+  induction l as [|u r IH]; cbn [insert_desc insert_key map]; [reflexivity|].
+  destruct (bytes_gtb (fst u) (fst t)); cbn [map]; [rewrite IH|]; reflexivity.
+Qed.
+
+Lemma sort_desc_keys l : map fst (sort_desc l) = sort_keys (map fst l).
+Proof.
+  unfold sort_desc, sort_keys. induction l as [|t l IH]; cbn [fold_right map]; [reflexivity|].
+  rewrite insert_desc_keys, IH. reflexivity.
+Qed.
+
+Lemma no_us_app a b : no_us a -> no_us b -> no_us (a ++ b).
+Proof. unfold no_us. intros Ha Hb H. apply in_app_or in H as [H|H]; auto. Qed.
+
+Definition tag_no_us (kv : tagp) : Prop := no_us (fst kv) /\ no_us (snd kv).
+
+Lemma tags_same_keys_injective : forall (s1 s2 : list tagp),
+  map fst s1 = map fst s2 -> Forall tag_no_us s1 -> Forall tag_no_us s2 ->
+  concat (map (fun kv => fst kv ++ SEP ++ snd kv) s1) = concat (map (fun kv => fst kv ++ SEP ++ snd kv) s2) ->
+  s1 = s2.
+Proof.
+  induction s1 as [|[k v] s1 IH]; intros [|[k' v'] s2] K F1 F2 E; cbn [map] in K; try discriminate; [reflexivity|].
+  injection K as -> K.
+  inversion F1 as [|? ? [Hk Hv] F1']; inversion F2 as [|? ? [_ Hv'] F2']; subst. cbn [fst snd] in *.
+  cbn [map concat fst snd] in E. unfold SEP in E. rewrite <- !app_assoc in E.
+  apply app_inv_head in E. cbn [app] in E. injection E as E.
+  destruct s1 as [|[k1 w1] s1]; destruct s2 as [|[k2 w2] s2]; cbn [map] in K; try discriminate.
+  - cbn [map concat] in E. rewrite !app_nil_r in E. subst. reflexivity.
+  - injection K as Kk K.
+    assert (E' : (v ++ k1) ++ 95 :: 95 :: w1 ++ concat (map (fun kv => fst kv ++ [95;95] ++ snd kv) s1)
+               = (v' ++ k2) ++ 95 :: 95 :: w2 ++ concat (map (fun kv => fst kv ++ [95;95] ++ snd kv) s2)).
+    { cbn [map concat fst snd] in E. rewrite <- !app_assoc in E. cbn [app] in E.
+      rewrite <- !app_assoc. cbn [app]. exact E. }
+    inversion F1' as [|? ? [Hk1 _] _]; inversion F2' as [|? ? [Hk2 _] _]; subst. cbn [fst snd] in *.
+    apply split_at_us in E' as [Ev _]; [|apply no_us_app; assumption|apply no_us_app; assumption].
+    apply app_inv_tail in Ev. subst v'.
+    apply app_inv_head in E.
+    f_equal. apply IH; try assumption.
+    cbn [map fst]. f_equal. exact K.
+Qed.
+
+Theorem preimage_injective_same_keys n1 n2 (t1 t2 : list tagp) :
+  map fst t1 = map fst t2 -> no_us n1 -> no_us n2 -> Forall tag_no_us t1 -> Forall tag_no_us t2 ->
+  preimage n1 t1 = preimage n2 t2 -> n1 = n2 /\ sort_desc t1 = sort_desc t2.
+Proof.
+  intros K Hn1 Hn2 F1 F2 E. unfold preimage, preimage_sorted, SEP in E. cbn [app] in E.
+  apply split_at_us in E as [-> E]; auto. injection E as E. split; [reflexivity|].
+  assert (P : forall t, Forall tag_no_us t -> Forall tag_no_us (sort_desc t)).
+  { intros t F. unfold sort_desc. induction F as [|x l Hx F IHF]; cbn [fold_right]; [constructor|].
+    revert IHF. generalize (fold_right insert_desc [] l) as acc. induction acc as [|u r IHr]; intros Hacc; cbn [insert_desc].
+    - constructor; auto.
+    - inversion Hacc; subst. destruct (bytes_gtb (fst u) (fst x)); constructor; auto. }
+  apply tags_same_keys_injective; auto.
+  rewrite !sort_desc_keys, K. reflexivity.
+Qed.
+
+Example preimage_same_keys_guard_sat :
+  let t1 := [([104;111;115;116], [104;49]); ([100;99], [101;117])] in   (* host=h1, dc=eu *)
+  let t2 := [([104;111;115;116], [104;50]); ([100;99], [101;117])] in   (* host=h2, dc=eu *)
+  map fst t1 = map fst t2 /\ Forall tag_no_us t1 /\ Forall tag_no_us t2 /\ preimage [99] t1 <> preimage [99] t2.
+Proof.
+  cbv zeta. split; [reflexivity|]. split; [|split].
+  - repeat constructor; cbn; intros H; repeat (destruct H as [H|H]; [discriminate|]); exact H.
+  - repeat constructor; cbn; intros H; repeat (destruct H as [H|H]; [discriminate|]); exact H.
+  - vm_compute. discriminate.
+Qed.
